@@ -27,6 +27,8 @@ TECHNIQUE = "property-based testing (Hypothesis) with member-point enclosures fr
 UNARY = {"exp": "exp", "log": "log", "sqrt": "sqrt", "sin": "sin", "cos": "cos", "tan": "tan", "gamma": "gamma",
          "rgamma": None, "loggamma": "lngamma", "factorial": None, "abs": "abs", "neg": "neg", "pos": None}
 GAMMA_MIN = exact.mk(0, 0x17626cc7a4a4a7, -52)         # 1.4616321449683623 (53-bit rounding, used only to place generated intervals)
+# argmin of gamma on (0, inf) to 300 bits: 1.46163214496836234126265954232572132846819620400644635129598840859878644...
+GAMMA_MIN_HI = exact.mk(0, 1488698631733748543345123856936620195538858685151493858380679170690628102643901131041224327, -299)
 
 
 def shards(tier):
@@ -148,7 +150,24 @@ def gen_case(d, shard, tier):
             center = exact.round_dyadic(pi[1] * k, pi[2] - 1, d.choice([p, p + 5, 2 * p]), d.choice("fc")) if k else None
         mm = 6 if fn in ("exp", "gamma", "rgamma", "loggamma", "factorial") else 12
         x, kx = interval(d, p, positive=positive, center=center, maxmag=mm)
+        if fn in ("gamma", "rgamma", "loggamma", "factorial") and d.int(0, 2) == 0:
+            # an interval that straddles the minimum of gamma by small amounts on both sides
+            xm = GAMMA_MIN_HI if fn != "factorial" else acc.sub_raw(GAMMA_MIN_HI, exact.from_int(1))
+            d1 = exact.mk(0, d.int(1, 255), -d.int(6, p + 20))
+            d2 = exact.mk(0, d.int(1, 255), -d.int(6, p + 20))
+            bits = d.choice([p, p, 2 * p, 300])
+            a = exact.round_raw(acc.sub_raw(xm, d1), bits, "f")
+            b = exact.round_raw(exact.mk(*_me(exact.add_exact(xm, d2))), bits, "c")
+            x, kx = [J(a), J(b)], "straddle_min"
         c = {"kind": "fun", "fn": fn, "p": p, "x": x, "px": members(d, x, p), "cls": "fun:%s:%s" % (fn, kx)}
+        if fn in ("gamma", "rgamma", "loggamma", "factorial"):
+            # the location of the minimum of gamma (300-bit value, verified with MPFR digamma) is a member point of
+            # every interval containing it: the extremum is where a wrong monotonicity case analysis shows
+            xm = GAMMA_MIN_HI if fn != "factorial" else acc.sub_raw(GAMMA_MIN_HI, exact.from_int(1))
+            a, b = U(x[0]), U(x[1])
+            if vle(a, xm) and vle(xm, b):
+                c["px"].append(J(xm))
+                c["cls"] += ":contains_min"
         if fn == "atan2":
             y, ky = interval(d, p)
             c["y"], c["py"] = y, members(d, y, p)
